@@ -15,6 +15,7 @@ import Ajson.Proofs.Frame
 import Ajson.Proofs.History
 import Ajson.Proofs.Sides
 import Ajson.Proofs.CloneSound
+import Ajson.Proofs.Refine
 import Ajson.Model.Decode
 
 namespace Ajson.Props.C05
@@ -102,6 +103,65 @@ example :
              ((r.1.childMap b).length == 1) && ((r.1.childMap root).length == 2)
          | _ => false
        | _ => false) = true := by decide +kernel
+
+/-! ### the operations on plain data
+
+`absVal` (Proofs/Refine) is the JSON value a node denotes, read off its subtree: the type of each node, the payload of each scalar
+(its cell, or what its source span says), the children maps — nothing else. The theorems below say what a mutation does IN TERMS OF
+THAT VALUE: the receiver's value is the plain-data operation applied to its old value, and every node that is neither the receiver
+nor one of its ancestors keeps its value (the ancestors' values change with the receiver's, as they must). -/
+
+/-- **AppendArray is "append"**: after an accepted `AppendArray(v)` of a detached node `v` the receiver denotes its old elements
+followed by the value of `v`; all nodes off the receiver's ancestor chain — other documents, detached subtrees, siblings, `v` and
+everything below them — denote what they denoted before -/
+theorem C05_append_array_is_append {h : Heap} (hs : Struct h) (ha : Acyc h) (n v : Nat) (hn : n < h.size) (hv : v < h.size)
+    (harr : (h.get n).type = .array) (hloop : h.isParentOrSelfNode n v = false) (hroot : (h.get v).parent = none) (fuel : Nat) :
+    (∀ m : Id, ¬ Anc h m n → absVal fuel (h.appendArray n [v]).1 m = absVal fuel h m) ∧
+    (∀ xs x, absVal (fuel + 1) h n = some (.arr xs) → absVal fuel h v = some x →
+      absVal (fuel + 1) (h.appendArray n [v]).1 n = some (.arr (xs ++ [x]))) :=
+  appendArray_refines hs ha n v hn hv harr hloop hroot fuel
+
+/-- **AppendObject under a new key is "add a member"** -/
+theorem C05_append_object_adds_a_member {h : Heap} (hs : Struct h) (ha : Acyc h) (n v : Nat) (hn : n < h.size) (hv : v < h.size)
+    (hobj : (h.get n).type = .object) (hloop : h.isParentOrSelfNode n v = false) (hroot : (h.get v).parent = none)
+    (k : Bytes) (hfresh : (h.childMap n).lookup k = none) (fuel : Nat) :
+    (∀ m : Id, ¬ Anc h m n → absVal fuel (h.appendObject n k v).1 m = absVal fuel h m) ∧
+    (∀ kvs x, absVal (fuel + 1) h n = some (.obj kvs) → absVal fuel h v = some x →
+      absVal (fuel + 1) (h.appendObject n k v).1 n = some (.obj (kvs ++ [(k, x)]))) :=
+  appendObject_refines hs ha n v hn hv hobj hloop hroot k hfresh fuel
+
+/-- **the scalar setters are assignments**: afterwards the receiver denotes the new scalar; all nodes off its ancestor chain — its
+former children included, which are detached — denote what they denoted before -/
+theorem C05_set_scalar_is_assignment {h : Heap} (hs : Struct h) (n : Nat) (hn : n < h.size) (v : SetVal) (hv : v.type.isContainer = false)
+    (fuel : Nat) :
+    (∀ m : Id, ¬ Anc h m n → absVal fuel (h.update (some n) v).1 m = absVal fuel h m) ∧
+    absVal (fuel + 1) (h.update (some n) v).1 n = plainOf v :=
+  update_scalar_refines hs n hn v hv fuel
+
+/-- what a node denotes depends only on the types, scalar payloads and children maps of its subtree (the frame rule behind the three
+theorems, usable for any other pair of heaps) -/
+theorem C05_value_depends_on_the_subtree (h h' : Heap) (P : Id → Prop)
+    (hP : ∀ m, P m → h'.typeOf m = h.typeOf m ∧ ((h.typeOf m).isContainer = false → scalarVal h' m = scalarVal h m) ∧
+      h'.childMap m = h.childMap m ∧ ∀ c ∈ (h.childMap m).vals, P c) (fuel : Nat) (n : Id) (hn : P n) :
+    absVal fuel h' n = absVal fuel h n := absVal_congr h h' P hP fuel n hn
+
+/-- witnesses on the model (kernel evaluation): `absVal` of a parsed document is the value the text denotes, and after AppendArray
+of a constructed number onto `a` the document denotes the text with that number appended -/
+example :
+    (match unmarshal "{\"a\":[1,\"x\"],\"b\":null}".toUTF8.toList with
+     | .error _ => false
+     | .ok (h0, root) =>
+       (match absVal 5 h0 root with
+        | some (.obj [(ka, .arr [.num _, .str sx]), (kb, .null)]) => ka == [97] && kb == [98] && sx == [120]
+        | _ => false) &&
+       (match h0.getKey (some root) [97] with
+        | .ok a =>
+          let (h1, x) := h0.scalarNode [] .bool (some (.bool true))
+          let r := h1.appendArray a [x]
+          (match absVal 5 r.1 root with
+           | some (.obj [(_, .arr [.num _, .str _, .bool true]), (_, .null)]) => true
+           | _ => false)
+        | _ => false)) = true := by decide +kernel
 
 /-! ### any history
 
